@@ -391,9 +391,9 @@ def finish(prop, mod, args, seed, cells, results, t0):
                 else:
                     n_dis += 1
             elif rec["status"] == "sat":
-                if rec.get("reproduced") is False:
+                if rec.get("reproduced") is False or (rec.get("reproduced") is None and not rec.get("structural")):
                     inconclusive.append({"cfg": rec["cfg"], "why": f"witness for {rec['name']} did not reproduce on "
-                                         f"the real code: {rec.get('replay_detail')}"})
+                                         f"the real code (or no replay is defined): {rec.get('replay_detail')} witness={str(rec.get('witness'))[:300]}"})
                 else:
                     violations.append(rec)
             else:
